@@ -77,6 +77,9 @@ func genCorridor(r *Rng, class string) corridor {
 	if class == "inside" {
 		c.Start = [2]float64{pick(f.TLX, f.BRX, true), f.TLY}
 		c.End = [2]float64{pick(l.TLX, l.BRX, true), l.BRY}
+		if r.Bool(30) {
+			translateCorridor(&c, r)
+		}
 	} else {
 		c.Start = [2]float64{pick(f.TLX, f.BRX, false), pick(f.TLY, f.BRY, false)}
 		c.End = [2]float64{pick(l.TLX, l.BRX, false), pick(l.TLY, l.BRY, false)}
@@ -133,6 +136,30 @@ func genStairCorridor(r *Rng) corridor {
 	c.Start = [2]float64{f.TLX + 4*float64(1+r.Intn(int((f.BRX-f.TLX)/4)-1)), f.TLY}
 	c.End = [2]float64{l.TLX + 4*float64(1+r.Intn(int((l.BRX-l.TLX)/4)-1)), l.BRY}
 	return c
+}
+
+// translateCorridor moves the corridor so that one of its vertices lands exactly on the origin (coordinates become
+// negative on one side): zero values of points are a natural sentinel, and nothing says a corridor is in the
+// positive quadrant
+func translateCorridor(c *corridor, r *Rng) {
+	k := r.Intn(len(c.Rects))
+	dx, dy := c.Rects[k].TLX, c.Rects[k].BRY
+	if r.Bool(50) {
+		dx = c.Rects[k].BRX
+	}
+	if r.Bool(50) {
+		dy = c.Rects[k].TLY
+	}
+	for i := range c.Rects {
+		c.Rects[i].TLX -= dx
+		c.Rects[i].BRX -= dx
+		c.Rects[i].TLY -= dy
+		c.Rects[i].BRY -= dy
+	}
+	c.Start[0] -= dx
+	c.Start[1] -= dy
+	c.End[0] -= dx
+	c.End[1] -= dy
 }
 
 func runShortest(c *corridor) {
